@@ -47,19 +47,21 @@ package fix
 //@     ensures[C01,C17] imp(istype(self, *String) && istype(d, string), err == nil && self.(*String).valid && self.(*String).value == unbox_string(d))
 //@     ensures[C17] imp(istype(self, *Int) && istype(d, int), err == nil && self.(*Int).valid && self.(*Int).value == unbox_int(d))
 //@     ensures[C17] imp(istype(self, *Uint) && istype(d, uint64), err == nil && self.(*Uint).valid && self.(*Uint).value == unbox_int(d))
-//@     ensures[C17] imp(istype(self, *Float) && istype(d, float64), err == nil && self.(*Float).valid && self.(*Float).value == unbox_int(d))
+//@     ensures[C17,C02] imp(istype(self, *Float) && istype(d, float64), err == nil && self.(*Float).valid && self.(*Float).value == unbox_int(d))
+//@     ensures[C17,C02] @canonical imp(istype(self, *Float) && istype(d, float64), wireV(self) == bytes(ffmt(unbox_int(d))))
 //@     ensures[C17] imp(istype(self, *Time) && istype(d, time.Time), err == nil && self.(*Time).valid && self.(*Time).value == unbox_int(d))
 //@     ensures[C17] imp(istype(self, *Bool) && istype(d, bool), err == nil && self.(*Bool).valid && self.(*Bool).value == unbox_bool(d))
 //@     ensures[C17] imp(istype(self, *Raw) && istype(d, []byte), err == nil && self.(*Raw).value == unbox_bytes(d))
 //@     ensures[C17] imp(d == nil && !istype(self, *Raw), nullV(self))
 //@     reveal nullV
+//@     reveal wireV
 //@   method IsNull() (res bool):
 //@     pure
 //@     ensures[C17,C01] res == nullV(self)
 //@     reveal nullV
 //@   method ToBytes() (res []byte):
 //@     pure
-//@     ensures[C17,C01] res == wireV(self)
+//@     ensures[C17,C01,C02] res == wireV(self)
 //@     reveal wireV
 
 //@ lemma[C01,C17] wireV_int(v Value): requires istype(v, *Int) ensures wireV(v) == ite(!v.(*Int).valid, nilbytes, bytes(dec(v.(*Int).value))) && nullV(v) == !v.(*Int).valid
@@ -121,7 +123,18 @@ package fix
 //@ func (g *Group) AddEntry(v Items) (res *Group)
 //@   requires g != nil
 //@   modifies g.items
+//@   forall j int
 //@   ensures res == g
+//@   ensures[C17,C02] @appended len(g.items) == old(len(g.items)) + 1 && nth(g.items, old(len(g.items))) == v
+//@   ensures[C17,C02] @kept imp(0 <= j && j < old(len(g.items)), nth(g.items, j) == old(nth(g.items, j)))
+
+// Entries hands out the group's own entries: replacing an item of a returned entry
+// (as the generated entry setters do) changes the group
+//@ func (g *Group) Entries() (res []Items)
+//@   requires g != nil
+//@   pure
+//@   forall j int
+//@   ensures[C17,C02] @own len(res) == len(g.items) && imp(0 <= j && j < len(res), nth(res, j) == nth(g.items, j))
 
 // ---- checksum (C01, C03) ---------------------------------------------------------
 //@ spec bsum(s string) int
